@@ -23,6 +23,13 @@ def extract(repo, o):
                 and isinstance(n.left.op, ast.Mult) and isinstance(n.left.right, ast.Name) and n.left.right.id == "fancy_wt":
             emph = expand(n.left.left, fn, tree)
     if emph is None:
+        # the same sum written the other way round: `(1 - <e>) * simple_wt + fancy_wt * <e>` / `fancy_wt * <e> + ...`
+        for n in ast.walk(fn):
+            if isinstance(n, ast.BinOp) and isinstance(n.op, ast.Mult):
+                for a, b in ((n.left, n.right), (n.right, n.left)):
+                    if isinstance(a, ast.Name) and a.id == "fancy_wt" and emph is None:
+                        emph = expand(b, fn, tree)
+    if emph is None:
         for n in ast.walk(fn):
             if isinstance(n, ast.Assign) and isinstance(n.targets[0], ast.Name) and n.targets[0].id == "x":
                 emph = n.value
